@@ -37,6 +37,10 @@ Section Ser.
 Variable dumps : val -> option string.      (* None: NonPickler hands the object back unchanged *)
 Variable loads : string -> lres.
 Variable mac : string -> string -> string -> string.   (* digestmod, secret, message -> hex digest *)
+(* the custom-type registry (Serializer._type_mapping): cenc v = Some (type name, encoder output) when
+   type(v).__name__ is registered; cdec name payload = decoder output, None = unknown name / DecodeError *)
+Variable cenc : val -> option (string * string).
+Variable cdec : string -> string -> option val.
 
 (* HashSigner.sign / NullSigner.sign *)
 Definition sign (c : cfg) (key payload : string) : string :=
@@ -49,8 +53,10 @@ Definition sign (c : cfg) (key payload : string) : string :=
 Definition encode (c : cfg) (key : string) (v : val) : stored :=
   match v with
   | VInt z => SInt z                                      (* int and not bool: stored raw *)
-  | VBytes b => SBytes (sign c key ("bytes:" ++ b))       (* registered custom type "bytes" *)
-  | _ => match dumps v with Some p => SBytes (sign c key p) | None => SObj v end
+  | _ => match cenc v with
+         | Some (ty, e) => SBytes (sign c key (ty ++ ":" ++ e))          (* _custom_encode *)
+         | None => match dumps v with Some p => SBytes (sign c key p) | None => SObj v end
+         end
   end.
 
 Inductive csres := CSOk (payload : string) | CSMissing | CSUnsecure.
@@ -70,11 +76,11 @@ Definition check_sign (c : cfg) (key blob : string) : csres :=
       end
   end.
 
-(* Serializer._custom_decode with the default registry {bytes} *)
+(* Serializer._custom_decode *)
 Definition custom_decode (b : string) : dres :=
   match split_first ":" b with
   | None => DDefault
-  | Some (ty, rest) => if String.eqb ty "bytes" then DVal (VBytes rest) else DDefault
+  | Some (ty, rest) => match cdec ty rest with Some v => DVal v | None => DDefault end
   end.
 
 (* Serializer.decode; second component: every byte string handed to the unpickler *)
@@ -110,3 +116,7 @@ Definition verified (c : cfg) (key blob p : string) : Prop :=
         is_label dm = true /\ mac dm secret (key ++ p) = sg'
   end.
 End Ser.
+
+(* the registry as shipped: only bytes, encoded as themselves *)
+Definition default_cenc (v : val) : option (string * string) := match v with VBytes b => Some ("bytes", b) | _ => None end.
+Definition default_cdec (ty payload : string) : option val := if String.eqb ty "bytes" then Some (VBytes payload) else None.
